@@ -185,7 +185,8 @@ def attr_str(v):
 
 
 def var_key(var):
-    return (var.path + "/" + var.name) if var.path is not None else var.name
+    path = var.attributes.get("path")       # `var.path` lives on the DummyData and is gone once data is set
+    return (path + "/" + var.name) if path is not None else var.name
 
 
 def rec_str(var):
